@@ -104,6 +104,14 @@ def flat_closure(item):
         if f.flatten:
             for u in f.ty.users():
                 out |= flat_closure(u)
+    # a newtype variant of an internally tagged or untagged enum puts its content's keys at the enum's own level
+    if item.kind == "enum":
+        for v in item.variants:
+            if v.kind == "newtype" and (v.untagged or item.untagged or (item.tag and not item.content)):
+                for f in v.fields:
+                    for u in f.ty.users():
+                        if u.id not in out:
+                            out |= flat_closure(u)
     return out
 
 
@@ -740,6 +748,17 @@ class Gen:
             k = self.r.choice([0, 1, 2, 2, 3, 3, 4])
             used = set()
             it.fields = [self.named_field(it.params, d, allow_self=True, used=used) for _ in range(k)]
+            if self.p.flatten and self.r.random() < 0.07:
+                # a struct that consists of flattened members only (one to three)
+                only = []
+                used = set()
+                for _ in range(self.r.choice([1, 2, 2, 3])):
+                    t = self.flatten_target(it.params, used)
+                    if t is not None:
+                        only.append(Field(self.field_name(), t, flatten=True))
+                if only:
+                    it.fields = only
+                    it.tags.append("k:only-flattened-members")
             pa = self.p.p_attr
             # (ts-rs documents rename_all as not applicable to a struct without fields)
             if it.fields and self.r.random() < (self.p.p_rename_all if self.p.p_rename_all is not None else pa):
